@@ -287,9 +287,12 @@ type vc19H struct{ length, chunk uint }
 func vc19HistParams() []vc19H {
 	ps := []vc19H{{1, 1}, {2, 1}, {4, 3}, {4, 2}, {11, 3}, {100, 10}, {7, 7}, {5, 64}, {16, 4},
 		{70, 1}, // 70 gadget calls: NTT-based polynomial multiplication
-		{130, 2}} // 65 gadget calls with chunk length 2 (re-used scratch polynomial in the parallel-sum gadget)
+		{130, 2}, // 65 gadget calls with chunk length 2 (re-used scratch polynomial in the parallel-sum gadget)
+		// 600 / 1100 gadget calls: polynomial products through NTTs of 2048 and
+		// 4096 points (one table entry of roots of unity each; 1024 points: thorough)
+		{600, 1}, {1100, 1}}
 	if lib.Thorough() {
-		ps = append(ps, vc19H{3, 2}, vc19H{64, 8}, vc19H{65, 8}, vc19H{255, 16}, vc19H{256, 1}, vc19H{1000, 32})
+		ps = append(ps, vc19H{300, 1}, vc19H{3, 2}, vc19H{64, 8}, vc19H{65, 8}, vc19H{255, 16}, vc19H{256, 1}, vc19H{1000, 32})
 	}
 	return ps
 }
@@ -310,6 +313,9 @@ func vc19HistCases() (cs []vc19Case) {
 			p, n := p, n
 			if n > 16 && p.length > 128 {
 				continue
+			}
+			if p.length > 256 && p.chunk == 1 && n != 2 {
+				continue // the 2048- / 4096-point instances: two aggregators only
 			}
 			cs = append(cs, vc19Case{fmt.Sprintf("histogram/%v/n=%d", p, n), n, func(r *lib.Rng) {
 				ctx := vc19Ctx(r)
